@@ -11,11 +11,12 @@ func init() {
 		Title: "Sorting yields an ordered permutation for every ranker",
 		Rule: "Exhaustive: all 349525 arrays of length 0..9 (thorough: all 1398101 of length 0..10) over a 4-value alphabet, elements tagged with unique ids, sorted through agent.Sorter with the rankers natural, reversed, coarse (quick: plus every 16th array with constant, always-Lesser, always-Greater and seeded-random; thorough: all seven on every array); " +
 			"oracle: multiset of ids unchanged, values unaltered, no adjacent pair ranks Greater when the ranker is a total preorder, ranker calls <= 10*n*ceil(log2 n)+100 (termination). Every 8th array is also sorted through Array, List and Catalog (must equal the sorter's arrangement); every 4th through Reverse (mirror, twice = identity) and Shuffle (permutation). " +
-			"Random arrays up to length 5000 (power-of-two neighbourhoods, heavy duplication, presorted, reversed, saw-tooth) and the default rankers. distinct_nontrivial = distinct blocks of 128 arrays + distinct random (ranker, n, shape, domain) + distinct default-ranker inputs.",
+			"Random arrays up to length 5000 (power-of-two neighbourhoods, heavy duplication, presorted, reversed, saw-tooth) and the default rankers. Reused instance: one sorter serves 2..6 arrays in turn (sort / reverse / shuffle, lengths 0..100 around the merge-pass boundaries, sometimes an array it has handled before); each call must have its effect on its own array and every array handled earlier must stay exactly as its call left it. distinct_nontrivial = distinct blocks of 128 arrays + distinct random (ranker, n, shape, domain) + distinct default-ranker inputs.",
 		Assumptions: []string{"stability is not required", "ShuffleValues only has to yield a permutation"},
 		Engines: []*core.Engine{
 			{Name: "sorter/exhaustive", Count: func(tier string) int { return seq.C09Blocks(tier) }, Run: seq.RunC09Exhaustive, Exhaustive: true, CPULimit: 120},
 			{Name: "sorter/random", Count: core.FixedCount(20000, 200000), Run: func(c *core.Ctx, idx int) { seq.RunC09Random(c) }, CPULimit: 60},
+			{Name: "sorter/reused-instance", Count: core.FixedCount(15000, 150000), Run: func(c *core.Ctx, idx int) { seq.RunC09Reused(c) }},
 			{Name: "sorter/default-ranker", Count: core.FixedCount(20000, 200000), Run: func(c *core.Ctx, idx int) { seq.RunC09Default(c) }},
 		},
 	})
